@@ -194,10 +194,11 @@ void gen_c20(Plan &p, Rng &r, bool thorough) {
     bool long_mode_flag = false;
     // mode flags
     unsigned gw = (unsigned)r.below(10);
-    if (gw < 5) {
-      static const char *grp[] = {"-n", "-t", "-s", "--nasm", "--strict", "--smart"};
-      flags.push_back(grp[r.below(6)]);
-    }
+    static const char *grp[] = {"-n", "-t", "-s", "--nasm", "--strict", "--smart"};
+    if (gw < 5) flags.push_back(grp[r.below(6)]);
+    // a second shorthand: each is documented as an equivalence, so they apply one after the other in argv order
+    // (whatever order the shuffle below produces is the order both asmline and the reference see)
+    if (gw < 5 && r.chance(1, 4)) flags.push_back(grp[r.below(6)]);
     if (r.chance(1, 4)) {
       static const char *f[] = {"--nasm-mov-imm", "--strict-mov-imm", "--smart-mov-imm"};
       flags.push_back(f[r.below(3)]);
